@@ -206,6 +206,15 @@ func c11Run(c c11Case) *Violation {
 				lw.Header().Set(in.Key, in.Val)
 			case "wh":
 				lw.WriteHeader(in.Code)
+			case "flash":
+				// what page layouts do: read (and thereby clear) a flash message
+				if c.Behind == "" {
+					if in.Key == authboss.FlashErrorKey {
+						_ = authboss.FlashError(lw, r)
+					} else {
+						_ = authboss.FlashSuccess(lw, r)
+					}
+				}
 			case "flush":
 				// what streaming handlers do: flush if the writer they were given can
 				if f, ok := lw.(http.Flusher); ok {
@@ -335,6 +344,14 @@ func c11Run(c c11Case) *Violation {
 			ev = authboss.ClientStateEvent{Kind: authboss.ClientStateEventDel, Key: in.Key}
 		case "delall":
 			ev = authboss.ClientStateEvent{Kind: authboss.ClientStateEventDelAll, Key: strings.Join(in.WL, ",")}
+		case "flash":
+			// reading a flash message deletes it - if the REQUEST carried one (what was queued in this response does not count)
+			if _, had := c.Session[in.Key]; !had || c.Behind != "" {
+				continue
+			}
+			ev = authboss.ClientStateEvent{Kind: authboss.ClientStateEventDel, Key: in.Key}
+			wantS = append(wantS, ev)
+			continue
 		default:
 			continue
 		}
@@ -448,7 +465,7 @@ func c11Run(c c11Case) *Violation {
 	return nil
 }
 
-var c11Keys = []string{"uid", "halfauth", "rm", "k1", "k2", "flash_success"}
+var c11Keys = []string{"uid", "halfauth", "rm", "k1", "k2", "flash_success", "flash_success", "flash_error"}
 
 func c11Gen(t *rapid.T) c11Case {
 	var c c11Case
@@ -464,8 +481,8 @@ func c11Gen(t *rapid.T) c11Case {
 	}
 	nPre := rapid.IntRange(0, 8).Draw(t, "npre")
 	n := nPre + rapid.IntRange(0, 8).Draw(t, "npost")
-	preOps := []string{"put", "put", "put", "del", "del", "delall", "hset", "read", "flush"}
-	allOps := []string{"put", "put", "del", "delall", "hset", "wh", "write", "write", "wh", "read", "flush"}
+	preOps := []string{"put", "put", "put", "del", "del", "delall", "hset", "read", "flush", "flash"}
+	allOps := []string{"put", "put", "del", "delall", "hset", "wh", "write", "write", "wh", "read", "flush", "flash"}
 	for i := 0; i < n; i++ {
 		var in c11Instr
 		in.Via = rapid.IntRange(0, 3).Draw(t, "via")
@@ -501,6 +518,9 @@ func c11Gen(t *rapid.T) c11Case {
 			in.Key = rapid.SampledFrom(c11Keys).Draw(t, "key")
 		case "flush":
 			in.Op = "flush"
+		case "flash":
+			in.Op, in.Store = "flash", "session"
+			in.Key = rapid.SampledFrom([]string{authboss.FlashSuccessKey, authboss.FlashSuccessKey, authboss.FlashErrorKey}).Draw(t, "flashkey")
 		}
 		c.Prog = append(c.Prog, in)
 	}
